@@ -16,13 +16,13 @@ import ipaddress
 import itertools
 import uuid
 
-from lib import common, recorr
+from lib import common, recorr, urlgrammar
 from lib.common import cps
 
 PROP = 'C13'
 LEVEL = 'proof'
 PROPS_MODULES = ['RTV.Props.C13']
-GEN = ['chartables', 'regexes']
+GEN = ['chartables', 'regexes', 'tlds', 'preprocess', 'emojitable', 'urlgrammar']
 REQUIRED_THEOREMS = ['octet_lang', 'ipv4_lang', 'ipv4_sound', 'prefix_ipv4_unsound_unicode_digits',
                      'ipv4_rejects_unicode_digit_witness', 'ipv4_complete_unique', 'ipv4_reported_span',
                      'drop_zeros_same_address', 'drop_zeros_canonical', 'drop_zeros_groupwise', 'ip_extract_sound',
@@ -30,7 +30,8 @@ REQUIRED_THEOREMS = ['octet_lang', 'ipv4_lang', 'ipv4_sound', 'prefix_ipv4_unsou
                      'guid_complete_unique_braced', 'guid_extract_sound', 'hextet_lang', 'ipv6_lang',
                      'ipv6_sound', 'ipv6_complete', 'drop_zeros_group_value', 'hashtag_lang',
                      'hashtag_reported_span', 'mention_lang', 'mention_unique', 'mention_reported_span',
-                     'real_tagchars_are_word', 'email_lang']
+                     'real_tagchars_are_word', 'email_lang', 'url_reported_valid', 'url_grammar_recognised',
+                     'url_family_size']
 RULE = ('regex correspondence: per translated pattern, strings sampled from the pattern, mutated, embedded in contexts '
         'built from the pattern\'s own class boundaries; unit: drop_leading_zeros / extractors / score_guid on IP- and '
         'GUID-shaped strings with ellipsis boundary contexts; pipeline: boundary octets {0,9,10,99,100,199,200,249,250,255}^4 '
@@ -40,7 +41,7 @@ RULE = ('regex correspondence: per translated pattern, strings sampled from the 
 ASSUMPTIONS = ['`regex` module tables for \\d \\w \\s exported by brute force from the running module (RTV/Gen/Regexes.lean)',
                '`finditer` is modelled as leftmost start / first end in backtracking priority order (validated by the regex correspondence)',
                'QueryProcessor.preprocess (lower-casing, full-width folding) is not modelled; pipeline carriers avoid code points whose lower-casing changes length',
-               'URL / phone number: regexes translated and validated by the regex correspondence, recognition itself correspondence only (no theorem: URL validity reads named capture groups, the matcher has no captures; phone = ten patterns + score filters); e-mail / hashtag / mention: language theorems for the regexes, extractor glue by correspondence']
+               'URL: extractor modelled (captures, TLD check through the C16 matcher model, ambiguous time term); soundness theorem universal, completeness for the explicit grammar by kernel evaluation of a covering family (130 of 1080 strings; all 1080 through the implementation); e-mail / hashtag / mention: language theorems for the regexes, extractor glue by correspondence']
 
 BOUNDARY = [0, 9, 10, 99, 100, 199, 200, 249, 250, 255]
 CARRIERS = ['{}', 'ip {} here', '({})', '{}, next', 'at {}.', 'x={};', '"{}"', ' {} ', 'see\t{}\nok']
@@ -520,17 +521,78 @@ def pipeline_others(ctx, impl):
                                       'reported': [(x.start, x.end, x.text, str(x.resolution)) for x in rs]},
                        property_fails=True)
         ctx.count('pipeline-' + kind)
+    # the whole explicit URL grammar (harness/lib/urlgrammar.py; its covering family is kernel-evaluated on the model
+    # in url_grammar_recognised): one entity, the URL as a whole, value == text
+    prod = urlgrammar.product()
+    for k, u in enumerate(prod):
+        q = urlgrammar.CARRIERS[k % len(urlgrammar.CARRIERS)].format(u)
+        rs = fns['url'](q, CULTURE)
+        ok = len(rs) == 1 and rs[0].text == u and rs[0].resolution.get('value') == u and q[rs[0].start:rs[0].end + 1] == u
+        if ok:
+            ctx.nontriv(('urlg', q))
+        else:
+            ctx.report('property', 'other-url', 'recognize_url(%r): expected exactly one entity with text == value == %r, got %s'
+                       % (q, u, [(x.start, x.end, x.text) for x in rs]),
+                       failing_input={'op': 'recognize_url', 'query': q, 'culture': CULTURE, 'expected': u,
+                                      'reported': [(x.start, x.end, x.text, str(x.resolution)) for x in rs]}, property_fails=True)
+    ctx.count('pipeline-url-grammar', len(prod))
+    return [t for kind, t in cases if kind == 'url'] + [u for q, a, u in urlgrammar.family()][::3]
+
+
+URL_EXTRA = ['7.am', 'at 8.pm sharp', '12.pm', 'www.example.zzz', 'http://example.notatld/x', 'http://10.0.0.1/x', 'http://localhost:8080/a',
+             'ftp://256.1.1.1', 'see example.com now', 'a.b', 'x.co', 'mail me at bob@example.com', 'http://a.com,http://b.org',
+             '(www.example.com)', 'www.example.com.', 'http://www.example.com/a_b-c?d=e&f=1#g', 'https://sub.domain.example.academy',
+             'http://example.com:80', 'http://example.com:123456', 'example.travel/deals', 'http://example.co.uk', 'http://xn--p1ai.com',
+             'visit www.a-b.cloud!', 'HTTP://WWW.EXAMPLE.COM', 'http://www.example.com@evil.org', 'www.example.c0m', 'http://.com', '1.am']
+
+
+def unit_url(ctx, impl, urls):
+    """BaseURLExtractor.extract (on the pre-processed query) and recognize_url against the model"""
+    from recognizers_sequence.sequence.extractors import BaseURLExtractor
+    from recognizers_sequence.sequence.english.extractors import EnglishURLExtractorConfiguration
+    ex = BaseURLExtractor(EnglishURLExtractorConfiguration(None))
+    r = ctx.rng('unit-url')
+    qs = list(URL_EXTRA)
+    for k, u in enumerate(urls):
+        qs.append(OTHER_CARRIERS[k % len(OTHER_CARRIERS)].format(u))
+        if k % 3 == 0:                                    # mutations: drop / replace one character, glue two
+            p = r.randrange(len(u))
+            qs.append(u[:p] + u[p + 1:])
+            qs.append(u[:p] + r.choice('.:/@!? ') + u[p + 1:])
+            qs.append(u + r.choice([' ', ',', '']) + r.choice(urls))
+    lines, want = [], []
+    for q in qs:
+        pq = impl.preprocess(q)
+        lines.append('url.extract\t' + cps(pq))
+        try:
+            want.append(fmt_ers(ex.extract(pq)))
+        except Exception:
+            want.append('err:Other')
+        lines.append('spec.url\t' + cps(q))
+        want.append(';'.join('%s:%d:%d:%s:%s' % (cps(x.type_name), x.start, x.end, cps(x.text), cps(str(x.resolution['value'])))
+                             for x in impl.sr.recognize_url(q, CULTURE)))
+    model = common.driver(lines)
+    ctx.count('unit-url', len(lines))
+    for l, a, b in zip(lines, want, model):
+        if a and not a.startswith('err'):
+            ctx.nontriv(('urlx', l))
+        if a != b:
+            op, q = l.split('\t')[0], common.uncps(l.split('\t')[-1])
+            ctx.report('correspondence', 'url-' + op.split('.')[1], '%s(%r): implementation %s, model %s' % (op, q, a, b),
+                       failing_input={'op': op, 'query': q, 'implementation': a, 'model': b})
 
 
 def correspond(ctx):
     impl = Impl()
     # regex correspondence (translator + matcher)
     recorr.run(ctx)
+    recorr.run_captures(ctx)
     # pipeline (also yields the strings for the unit level)
     near = pipeline_ip(ctx, impl)
     pipeline_ip_zh(ctx, impl)
     guid_texts, guid_near = pipeline_guid(ctx, impl)
-    pipeline_others(ctx, impl)
+    url_cases = pipeline_others(ctx, impl)
+    unit_url(ctx, impl, url_cases)
     # unit level
     r = ctx.rng('unit')
     texts = ['', '0', '00', '000.000.000.000', '010.001.100.000', '0:0::00', '::', ':', '.', '1.', '.1', '0.', 'a.b',
